@@ -230,6 +230,7 @@ class RawMeshData:
                 key = utils.keyify(F)
                 face_id[key] = iF
 
+            new_elem, new_adj = [], [] # committed at the end: a missing face (KeyError) leaves the container untouched
             for iC,C in enumerate(self.cells):
                 if len(C)==4:
                     # cell is tetrahedron
@@ -249,9 +250,11 @@ class RawMeshData:
                     ]
                 for face in faces_C:
                     if nce==0:
-                        self.cell_faces._elem.append(face_id[utils.keyify(face)])
+                        new_elem.append(face_id[utils.keyify(face)])
                     if nca==0: 
-                        self.cell_faces._adj.append(iC)
+                        new_adj.append(iC)
+            self.cell_faces._elem += new_elem
+            self.cell_faces._adj += new_adj
 
     def _complete_edges_from_faces(self):
         if self.faces.empty() : return # nothing to do
